@@ -19,7 +19,7 @@ from vf.pyvc import extract
 MOD = "debian.copyright"
 from vf import tricky
 LINES = ["", "a", " b", "x y", "..", " .", ". ", "  .", "é ü", "\ttab", "a ", ".", "  ", " ", "%s", "a;b,c", "-----BEGIN PGP SIGNATURE-----", "#x"]
-PATTERNS = ["*", "src/*", "debian/rules", "a?.c", "doc/日本語.txt", "doc/日本語　ガイド.txt", "x\\*y", "é", "data/a,b.txt", "x,", ","]
+PATTERNS = ["*", "src/*", "debian/rules", "a?.c", "doc/日本語.txt", "doc/日本語　ガイド.txt", "x\\*y", "é", "data/a,b.txt", "x,", ",", "src/\\d*.c", "trailing\\"]
 TEXTS = ["line1", "line1\n\n  indented\nlast", "é ü\n\n\nx", "a\n .\nb", "  lead", "t\n. \n  .\nend", "", "ends with blanks  ",
          "l1\nlast line\t ", "a\nb\u3000",
          "quoted statement:\n-----BEGIN PGP SIGNED MESSAGE-----\nHash: SHA256\n\nbody\n-----BEGIN PGP SIGNATURE-----\nabc=\n-----END PGP SIGNATURE-----\nafter",
